@@ -26,7 +26,7 @@ ASSUMPTIONS = [
 PROFILE = scenario.profile(maxD=3, extra_budget=(20, 90), cons_x0=("margin",), p_cons=0.2,
                            noise_modes=("none", "auto", "declared", "declared", "specified", "specified"),
                            specified_spellings=("both", "alone"), max_iter_choices=(None, None, 4, 8), tol_mesh_choices=(None,),
-                           c_classes=("inside", "inside", "hardbox", "on_bound", "outside"))
+                           c_classes=("inside", "inside", "hardbox", "on_bound", "outside"), p_seed_numpy=0.2)
 N = {"quick": 224, "thorough": 4000}
 N_HIST = {"quick": 3000, "thorough": 100000}
 
